@@ -23,7 +23,7 @@ def run(tier):
                                what="waker bridge diverges from the specification")
         tb += b
         ts += s
-    n = 200 if quick else 4000
+    n = 150 if quick else 3000
     jsonl2, nb2 = lib.gen_step(c, "Gen_Waker", "Gen_Waker_sim.cfg", "gen_waker_sim", simulate="num=%d" % n, workers=4, seed_=lib.seed())
     b, s = lib.replay_step(c, rt, ["waker"], jsonl2, ["--fw", "5", "--threads", "3", "--flavour", "future"], parts=4,
                            what="waker bridge diverges from the specification (long behaviour)")
